@@ -153,7 +153,7 @@ PROPS = {
     'C01': DATAPATH + ['P6b', 'S6', 'S7', 'S8'],
     'C02': DATAPATH + ['S6', 'S8'],
     'C03': DATAPATH + ['P5n'],
-    'C04': DATAPATH + ['W14', 'P3u', 'P4r'],
+    'C04': DATAPATH + ['W14', 'P3u', 'P4r', 'S8'],
     'C05': DATAPATH + ['P13c', 'P13e', 'P13g', 'P3u', 'W14'],
     # ... a send refused for good (Disconnected raised while streams exist) is a refused send the quiescent state does not explain
     'C06': DATAPATH + ['W10', 'C13map', 'P9c'],
@@ -165,7 +165,7 @@ PROPS = {
     'C10': ['S6', 'P10a', 'P10b', 'P10c', 'P10d', 'P10f', 'P10g', 'P10h', 'P15', 'P15m', 'P15n', 'P15w', 'P3t', 'P5a', 'S5', 'W9'],
     'C11': ['P5n', 'P9a', 'P9b', 'P9c', 'P9d', 'P9f', 'P10b', 'P10h', 'P11i', 'P10d', 'P10e', 'P10f', 'P10g', 'P1b', 'P11e', 'P11g', 'P12d', 'W7', 'W9', 'S5'],
     'C12': DATAPATH + ['W6', 'P9a', 'P5n'],
-    'C13': FUTURES + ['C13map', 'P2c', 'P9c', 'W10'],
+    'C13': FUTURES + ['C13map', 'P2c', 'P9c', 'W10', 'P9f', 'W7'],
     'C14': FUTURES,
     'C15': FUTURES + ['P7a', 'S3'],
     'C16': ['P12u', 'P4r', 'P6a', 'P12k', 'P13e', 'W9', 'W12', 'P12a', 'P12b', 'P12c', 'P12d', 'P12e', 'P12f', 'P12g', 'P12i', 'P13d', 'P10c', 'P10d', 'P10f', 'P9e', 'S5'],
